@@ -41,7 +41,8 @@ interpolated into rich markup). The model is a model of the repaired tree.
 
 * **D13** RecursionError for very deep nesting (1 100 nested blocks; a 199-deep START chain at limit 200; unbounded RUN
   recursion at limit 200 around a 100-deep expression) — C09, C14. Repair means changing the interpreter's recursion scheme.
-* **D12-huge-int** `$STRING 10^5000`: `str()` of an integer above CPython's 4 300-digit limit raises ValueError — C09.
+* (D12, integers beyond CPython's 4 300-digit conversion limit, is no longer a finding: writing such an integer out was
+  repaired by 99a4f48, reading such a literal by 0addceb.)
 * **D19** `$ENTER 10^10` (and now equally `$ENTER 10.0^400`): unbounded time and memory — C09.
 * **D18** grouped `DEFAULT_DELAY` evaluates all arguments before applying any — C11.
 * **D14** names that are a prefix of, equal to, or an extension of `TRUE`/`FALSE` are accepted but cannot be read back — C20.
